@@ -416,13 +416,13 @@ func c18NoPeers(p *Prog, r *Report) {
 			if hasAtom(e.Guard, "recv.failNoPeers") && hasAtom(e.Guard, "len(recv.pipes) == 0") {
 				pre = append(pre, e)
 			}
-			if hasAtom(e.Guard, "select#0 == 0") {
+			if hasAtom(e.Guard, "arm(<-recv.noPeerQ)") {
 				arm = append(arm, e)
 			}
 		}
 		sel := sm.Ev("select-recv", "recv.noPeerQ")
 		q.Req(R, "xpush.SendMsg/fast-fail", len(pre) == 1, pre.Pos(p), "ErrNoPeers iff failNoPeers && len(pipes)==0, before the wait", "xpush.SendMsg does not return ErrNoPeers under failNoPeers && len(pipes)==0 before waiting")
-		q.Req(R, "xpush.SendMsg/waits-on-noPeerQ", len(sel) == 1 && sel[0].Arm == 0 && len(arm) == 1, sel.Pos(p), "the wait includes noPeerQ and that arm returns ErrNoPeers", "the blocking select in xpush.SendMsg lacks the noPeerQ case returning ErrNoPeers")
+		q.Req(R, "xpush.SendMsg/waits-on-noPeerQ", len(sel) == 1 && len(arm) == 1, sel.Pos(p), "the wait includes noPeerQ and that arm returns ErrNoPeers", "the blocking select in xpush.SendMsg lacks the noPeerQ case returning ErrNoPeers")
 	}
 	rp := q.Fn(R, "protocol/xpush", "socket", "RemovePipe")
 	if rp.OK() {
